@@ -347,6 +347,10 @@ def gen_args(rng, qual, tier):
             for wc in (12, 15, 18, 21, 24, 0, 13, 11, 25, -12):
                 for i in idx[: (8 if wc in (12, 24) else 2)]:
                     out.append((rng.choice(objs), wc, i))
+    elif qual == "bip39.mnemonic_from_entropy_bits":
+        for b in (128, 160, 192, 224, 256):
+            out += [(b,)] * max(3, n // 8)
+        out += [(0,), (127,), (129,), (64,), (512,), (-128,), (8,), (136,), (True,), ("128",), (None,)]
     elif qual in ("keys.PrivateKey.__bytes__", "keys.PrivateKey.wif"):
         from btc_hd_wallet.keys import PrivateKey
         NN = 0xFFFFFFFFFFFFFFFFFFFFFFFFFFFFFFFEBAAEDCE6AF48A03BBFD25E8CD0364141
@@ -404,7 +408,10 @@ class PySemProp(BaseProp):
         cases = []
         for q in self.funcs:
             for args in gen_args(rng, q, tier):
-                cases.append({"kind": "Sem:" + q.split(".")[-1], "f": q, "args": [jval(a) for a in args]})
+                c = {"kind": "Sem:" + q.split(".")[-1], "f": q, "args": [jval(a) for a in args]}
+                if q == "bip39.mnemonic_from_entropy_bits":
+                    c["force"] = [None, "zero", "ones", "top", "low", None][len(cases) % 6]
+                cases.append(c)
         return cases
 
     def run_impl(self, case):
@@ -435,6 +442,30 @@ class PySemProp(BaseProp):
                 ent_log.append((path, v))
                 return v
             _B.entropy = _logged
+        rng_log = None
+        if case["f"] == "bip39.mnemonic_from_entropy_bits":
+            # the external primitive random.getrandbits of the module-level SystemRandom object: logged (driver-chosen corner answers
+            # every few cases: 0, all ones, top bit only, leading zero bytes), and handed to the interpreter as a table
+            import btc_hd_wallet.bip39 as _b39
+            rng_log = []
+            _rng = _b39.random
+            forced = case.get("force")
+            class _Proxy(object):
+                def getrandbits(self_, k):
+                    v = _rng.getrandbits(k)
+                    if forced == "zero":
+                        v = 0
+                    elif forced == "ones":
+                        v = (1 << k) - 1 if isinstance(k, int) and k > 0 else v
+                    elif forced == "top":
+                        v = 1 << (k - 1) if isinstance(k, int) and k > 0 else v
+                    elif forced == "low":
+                        v = v & 0xFFFF
+                    rng_log.append((k, v))
+                    return v
+                def __getattr__(self_, name):
+                    return getattr(_rng, name)
+            _b39.random = _Proxy()
         try:
             with rec.installed():
                 try:
@@ -444,6 +475,8 @@ class PySemProp(BaseProp):
         finally:
             if ent_log is not None:
                 _B.entropy = _orig
+            if rng_log is not None:
+                _b39.random = _rng
         if r[0] == "val":
             try:
                 exp = "(Val %s)" % cval(r[1])
@@ -456,6 +489,8 @@ class PySemProp(BaseProp):
             exp = "(Exc %s)" % r[1]
             shown = {"raises": r[1]}
         out = {"exp": exp, "shown": shown, "sha": rec.sha_table(), "err": r[0] == "exc"}
+        if rng_log is not None:
+            out["rng"] = "[%s]" % ";".join("(%s, %s)" % (cz(k), cz(v)) for k, v in rng_log if isinstance(k, int) and not isinstance(k, bool))
         if ent_log is not None:
             out["ent"] = "[%s]" % ";".join("([%s], %s)" % (";".join(str(ord(c)) for c in pth), ('(Some "%s")' % v.hex()) if v is not None else "None")
                                          for pth, v in ent_log if isinstance(pth, str))
@@ -465,6 +500,8 @@ class PySemProp(BaseProp):
         if obs.get("skip"):
             # evaluated as a trivially passing case: the function was called outside the fragment's domain
             return '(Sem [] "" [] (Val VNone))' if False else '(Sem [] "bech32.bech32_hrp_expand" [VStr []] (Val (VList [VInt 0])))'
+        if "rng" in obs:
+            return '(SemR %s %s "%s" [%s] %s)' % (obs["sha"], obs["rng"], case["f"], ";".join(cval(unj(a)) for a in case["args"]), obs["exp"])
         if "ent" in obs:
             return '(SemE %s %s "%s" [%s] %s)' % (obs["sha"], obs["ent"], case["f"], ";".join(cval(unj(a)) for a in case["args"]), obs["exp"])
         return '(Sem %s "%s" [%s] %s)' % (obs["sha"], case["f"], ";".join(cval(unj(a)) for a in case["args"]), obs["exp"])
